@@ -13,7 +13,7 @@
 //!                  BinaryCard::from_index
 //!   round trip:    52 cards x 2 renderings
 //! Oracle: two-char parser through two literal symbol sets; hand-rolled whitespace tokenizer (oracle::misc).
-//! Fewer tokens than slots => Err(InvalidIndex) / None; exactly as many => slot k = token k; more: not judged.
+//! Fewer tokens than slots => Err(any) / None; exactly as many => slot k = token k; more: not judged.
 use super::{confirm, sample_json, Ctx};
 use crate::engine::enumerate::{par_parts, tuple_decode};
 use crate::engine::evidence::{Acc, Case, Report, Verdict};
@@ -43,11 +43,21 @@ fn suit_disc(c: char) -> u8 {
     suit_of_symbol(c).map(|s| s + 1).unwrap_or(0)
 }
 
-#[derive(Debug, PartialEq)]
+/// What a hand parser did. The statement only says that parsing FAILS on too few tokens, not with which error, so every
+/// `Err` is the same outcome here (the variant is kept for the message only).
+#[derive(Debug)]
 enum HandOut {
     Ok(Vec<u32>),
-    InvalidIndex,
-    OtherErr(String),
+    Failed(String),
+}
+impl PartialEq for HandOut {
+    fn eq(&self, o: &HandOut) -> bool {
+        match (self, o) {
+            (HandOut::Ok(a), HandOut::Ok(b)) => a == b,
+            (HandOut::Failed(_), HandOut::Failed(_)) => true,
+            _ => false,
+        }
+    }
 }
 /// do the (rank, suit) enumeration members returned for a token agree with the card the token denotes?
 fn members_ok(exp_word: u32, r: u8, su: u8) -> bool {
@@ -61,8 +71,15 @@ fn try_size(n: usize, st: &'static str) -> HandOut {
     fn conv<T>(r: Result<T, HandError>, f: impl Fn(T) -> Vec<u32>) -> HandOut {
         match r {
             Ok(h) => HandOut::Ok(f(h)),
-            Err(HandError::InvalidIndex) => HandOut::InvalidIndex,
-            Err(e) => HandOut::OtherErr(format!("{:?}", e)),
+            Err(e) => HandOut::Failed(
+                match e {
+                    HandError::InvalidIndex => "InvalidIndex",
+                    HandError::NotEnoughCards => "NotEnoughCards",
+                    HandError::TooManyCards => "TooManyCards",
+                    _ => "another error",
+                }
+                .to_string(),
+            ),
         }
     }
     match n {
@@ -128,7 +145,7 @@ pub fn judge(case: &Case) -> Verdict {
                 if l > n {
                     continue; // statement is silent about extra tokens
                 }
-                let exp = if l < n { HandOut::InvalidIndex } else { HandOut::Ok(ws.clone()) };
+                let exp = if l < n { HandOut::Failed("any error".into()) } else { HandOut::Ok(ws.clone()) };
                 match guard(|| try_size(n, st)) {
                     Err(p) => return Verdict::Violated { class: format!("panic:hand:{}-slot", n), expected: format!("{:?}", exp), observed: format!("panic: {}", p) },
                     Ok(got) if got != exp => {
